@@ -843,6 +843,12 @@ def run(ck):
     drv, tab, scratch = common_setup(ck)
     w = WorkerProc(scratch, patch=True)
     try:
+        if w.init.get("error"):
+            s0 = ck.stream("histories", HIST_RULE)
+            s0.note("worker init")
+            s0.expect(False, "import spsdk + generate an RSA key / certificate in a fresh interpreter",
+                      "spsdk cannot be imported / used in a fresh interpreter", w.init["error"])
+            return
         ck.extra["draws_before_any_import_all"] = w.init.get("draws_so_far")
         stream_import(ck, drv, tab, w)
         n = ck.budget(300, 6000)
